@@ -22,6 +22,11 @@ def one(m, tier):
         r = run(["git", "-C", "/repo", "worktree", "add", "--detach", wt, "HEAD"])
         if r.returncode != 0:
             res["error"] = r.stdout; return res
+        for sha in m.get("revert", []):
+            d = run(["git", "-C", "/repo", "show", sha]).stdout
+            r = subprocess.run(["git", "-C", wt, "apply", "-R"], input=d, stdout=subprocess.PIPE, stderr=subprocess.STDOUT, text=True)
+            if r.returncode != 0:
+                res["error"] = "cannot revert %s: %s" % (sha, r.stdout[-300:]); return res
         for ed in m["edits"]:
             p = os.path.join(wt, ed["file"])
             s = open(p).read()
